@@ -283,7 +283,9 @@ class FStringNode:
 
 def _close_fstring_if_necessary(fstring_stack, string, line_nr, column, additional_prefix):
     for fstring_stack_index, node in enumerate(fstring_stack):
-        lstripped_string = string.lstrip()
+        # Only strip what the tokenizer treats as whitespace, not everything
+        # that str.lstrip() considers to be a space (e.g. NBSP or NEL).
+        lstripped_string = string.lstrip(' \t\f')
         len_lstrip = len(string) - len(lstripped_string)
         if lstripped_string.startswith(node.quote):
             token = PythonToken(
